@@ -1019,12 +1019,14 @@ func (t *trzszTransfer) pipelineDecodeData(ctx *pipelineContext, recvDataChan <-
 }
 
 func (t *trzszTransfer) pipelineSaveData(ctx *pipelineContext, file fileWriter, size int64,
-	fileDataChan <-chan []byte, ackImmediatelyChan chan<- struct{}, showProgress bool) <-chan int64 {
+	fileDataChan <-chan []byte, ackImmediatelyChan chan<- struct{}, showProgress bool) (<-chan int64, <-chan struct{}) {
 	var progressChan chan int64
 	if showProgress {
 		progressChan = make(chan int64, 100)
 	}
+	saveDone := make(chan struct{})
 	go func() {
+		defer close(saveDone)
 		defer close(ackImmediatelyChan)
 		if showProgress {
 			defer close(progressChan)
@@ -1057,7 +1059,7 @@ func (t *trzszTransfer) pipelineSaveData(ctx *pipelineContext, file fileWriter, 
 		}
 		ackImmediatelyChan <- struct{}{}
 	}()
-	return progressChan
+	return progressChan, saveDone
 }
 
 func (t *trzszTransfer) recvFileDataV2(file fileWriter, size int64, progress progressCallback) ([]byte, error) {
@@ -1082,7 +1084,7 @@ func (t *trzszTransfer) recvFileDataV2(file fileWriter, size int64, progress pro
 	md5DigestChan := t.pipelineCalculateMD5(ctx, md5SourceChan)
 
 	showProgress := progress != nil
-	progressChan := t.pipelineSaveData(ctx, file, size, fileDataChan, ackImmediatelyChan, showProgress)
+	progressChan, saveDone := t.pipelineSaveData(ctx, file, size, fileDataChan, ackImmediatelyChan, showProgress)
 
 	if showProgress {
 		wg := t.pipelineShowProgress(ctx, progress, progressChan)
@@ -1091,6 +1093,12 @@ func (t *trzszTransfer) recvFileDataV2(file fileWriter, size int64, progress pro
 
 	select {
 	case <-ctx.succ:
+		// the acknowledger reports completion as soon as the saved step equals the announced size; the
+		// stream may go on beyond it: only the saver, at the end of the stream, knows ( step = size )
+		<-saveDone
+		if ctx.Err() != nil {
+			return nil, context.Cause(ctx)
+		}
 		return <-md5DigestChan, nil
 	case <-ctx.Done():
 		return nil, context.Cause(ctx)
